@@ -88,7 +88,7 @@ done
 # libFuzzer campaigns are part of the thorough tier of the properties that list them
 if [ "$TIER" = thorough ] && [ -x ./fuzz_campaign.sh ]; then
     case "$ID" in
-        C01|C07|C12)
+        C01|C02|C05|C07|C08|C11|C12|C13|C14)
             ./fuzz_campaign.sh "$ID"
             rc=$?
             if [ $rc -eq 1 ]; then RC=1; elif [ $rc -eq 2 ] && [ $RC -eq 0 ]; then RC=2; fi
